@@ -7,6 +7,7 @@ import (
 	"io"
 	"net"
 	"os"
+	"os/exec"
 	"strconv"
 	"strings"
 	"sync"
@@ -125,7 +126,7 @@ func (s *scriptReader) ReadPacketData() ([]byte, *gopacket.CaptureInfo, error) {
 		}
 		return []byte{byte(pos >> 8), byte(pos), sym}, ci, nil
 	}
-	if sym == 'x' && pos%3 == 1 {
+	if sym == 'x' && pos%3 == 1 && !noUnhashable {
 		// an unknown failure whose VALUE is of a type that cannot be compared or hashed (a list of causes): a
 		// classifier may compare it with its sentinels (`==` on different dynamic types is false) but must not key a map
 		// with it.  It carries its position itself
@@ -137,6 +138,38 @@ func (s *scriptReader) ReadPacketData() ([]byte, *gopacket.CaptureInfo, error) {
 }
 
 type errList []string
+
+// noUnhashable is set when the canary of the component (below) has shown that an unknown failure of an unhashable type
+// takes the receiver goroutine — and with it the process — down: the sweep then uses plain values for them
+var noUnhashable bool
+
+// runRecvIsolated runs one script in a child process of this binary (`sxdiff replay`): a panic in a goroutine of
+// the code under test cannot be recovered here, but it can be survived there and reported with its input
+func runRecvIsolated(syms, cancelS string) string {
+	dir, err := os.MkdirTemp(os.Getenv("VERIF_WORK"), "recviso")
+	if err != nil {
+		return runRecv(syms, cancelS)
+	}
+	defer os.RemoveAll(dir)
+	cf := dir + "/cases"
+	cmd := exec.Command(os.Args[0], "replay", "-cases", cf)
+	cmd.Stdin = strings.NewReader("recv\t" + syms + "\t" + cancelS + "\n")
+	var eb strings.Builder
+	cmd.Stderr = &eb
+	if err := cmd.Run(); err != nil {
+		msg := ""
+		for _, l := range strings.Split(eb.String(), "\n") {
+			if strings.HasPrefix(l, "panic:") || strings.HasPrefix(l, "fatal error:") {
+				msg = l
+				break
+			}
+		}
+		return "PANIC " + strings.ReplaceAll(msg, "\t", " ")
+	}
+	b, _ := os.ReadFile(cf)
+	f := strings.Split(strings.TrimRight(string(b), "\n"), "\t")
+	return f[len(f)-1]
+}
 
 func (e errList) Error() string { return e[0] }
 
@@ -301,6 +334,16 @@ const recvAlphabet = "FPartosnedugcbfwxp"
 func recvComponent(r *hx.Run) {
 	r.Rule = "case = (sequence over the 17-symbol outcome vocabulary, cancellation position or none); exhaustive up to a length bound, cancellation at every position for a sample, random long sequences incl. >100 reported errors; non-trivial class = (set of outcome classes present {frame, procErr, transient, unknown, broken}, cancelled?, ends-by)"
 	type job struct{ syms, cancel string }
+	// canary: unknown failures whose value is of an unhashable type (position 1 of each script), each in a child
+	// process.  A receiver that dies of one is reported with the script; the sweep then goes on without that kind
+	for _, syms := range []string{"FxF", "PxaF", "axFP"} {
+		out := runRecvIsolated(syms, "-")
+		if strings.HasPrefix(out, "PANIC") {
+			noUnhashable = true
+		}
+		r.Count("canary")
+		r.Case("unknown/unhashable", "recv", syms, "-", out)
+	}
 	var jobs []job
 	maxLen := 3
 	if r.Tier == "thorough" {
